@@ -120,10 +120,16 @@ func goSliceEnumerate(obj *object, all bool, each func(string) bool) {
 
 func goSliceDefineOwnProperty(obj *object, name string, descriptor property, throw bool) bool {
 	if name == propertyLength {
-		obj.value.(*goSliceObject).setLength(descriptor.value.(Value))
+		value, isValue := descriptor.value.(Value)
+		if !isValue {
+			// An accessor descriptor, or a descriptor without a value.
+			return obj.runtime.typeErrorResult(throw)
+		}
+		obj.value.(*goSliceObject).setLength(value)
 		return true
 	} else if index := stringToArrayIndex(name); index >= 0 {
-		if obj.value.(*goSliceObject).setValue(index, descriptor.value.(Value)) {
+		value, isValue := descriptor.value.(Value)
+		if isValue && obj.value.(*goSliceObject).setValue(index, value) {
 			return true
 		}
 		return obj.runtime.typeErrorResult(throw)
